@@ -2142,6 +2142,18 @@ func (s *swamp) SaveFunction(t treasure.Treasure, guardID guard.ID) treasure.Tre
 		// treasure may still be sitting in the write buffer. We must remove it first,
 		// otherwise beacon.Add silently drops the new treasure (key already exists)
 		// and only the OpDelete gets flushed — causing data loss after swamp reopen.
+		//
+		// That buffered delete was the tombstone of a version that is already on disk (it
+		// carries the file pointer). Dropping it is fine because the new treasure overwrites
+		// that version - but the new object must inherit the file pointer: it is how
+		// deleteHandler (and the chronicler) know that the key has a version on disk. Without
+		// it, deleting the re-created key again before the next write only removed it from the
+		// buffer, no tombstone was ever written and the old version came back after a reload.
+		if pending := s.treasuresWaitingForWriter.Get(t.GetKey()); pending != nil {
+			if fileName := pending.GetFileName(); fileName != nil {
+				t.BodySetFileName(guardID, *fileName)
+			}
+		}
 		s.treasuresWaitingForWriter.Delete(t.GetKey())
 
 		// add the treasure to the treasuresWaitingForWriter index
